@@ -226,6 +226,11 @@ pub mod shm;
 mod state;
 pub mod testing;
 mod util;
+#[cfg(all(
+    feature = "verif-hooks",
+    any(feature = "memory", feature = "sdlib", feature = "posix")
+))]
+pub mod verif;
 
 pub use buf::*;
 pub use client::*;
